@@ -80,8 +80,10 @@ CLAIMS = {
              'elements and documents - lists every element once, lists it exactly when the listing document is its parent, '
              'and every element referenced by a parented element has the same parent. Document::add is proved to attach the '
              'whole reference closure (induction on fuel with a pending set); attaching to a second document and linking '
-             'across documents throw. Partial (theorem name _partial): copy, deepCopy(To), reassignIds and object_creation '
-             'are covered by the differential run only. The model is tied to libadm by comparing full snapshots after every '
+             'across documents throw. The extended calls - add(block), time setters, element copy(), deepCopyTo, '
+             'reassignIds, updateBlockFormatDurations, route tracing and the object_creation helpers - are proved to keep '
+             'the invariant too (Heap/WFExt.v). Partial (theorem names _partial): Document::deepCopy alone is covered by the '
+             'differential run only. The model is tied to libadm by comparing full snapshots after every '
              'call of generated histories; the oracle checks libadm\'s own snapshots.',
         design='8 C03'),
     'C04': dict(
